@@ -214,6 +214,15 @@ func VerifC26_keepsBalancedAnyGeneration() {
 	}
 	in.symGens = true
 	members := in.coopMembers()
+	// a cooperative member may carry its current assignment ONLY in the KIP-429 owned-partitions
+	// field (no sticky user data: other clients do that); then every generation >= 0 counts,
+	// including 0, the first generation of a group
+	if verifPick(2) == 1 {
+		for i := range members {
+			members[i].UserData = nil
+			verifAssume(members[i].Generation >= 0)
+		}
+	}
 	plan := Balance(members, in.topics)
 	in.verifCheckValid(plan, "sticky on a balanced group")
 	if !verifSamePlan(in, plan, prior) {
@@ -260,4 +269,49 @@ func VerifC26_chain4() {
 	}
 	in.verifBalanceOptimal(in.eagerMembers(), "sticky (4-member chain)")
 	verifReached("c26-chain4")
+}
+
+// VerifC26_joiners4: four members over two topics — the smallest shapes in which the complex
+// path has a middle load level that empties while lighter members are still being served
+// (incumbents holding whole topics, empty joiners). Each member subscribes to t0, t1 or both;
+// t0 has 2 or 4 partitions, t1 1 or 2; per topic one incumbent (any subscriber, or nobody)
+// owns all of its partitions before the rebalance. Balance must return (every loop within 200
+// iterations) with a plan that is valid and not improvable.
+// verifTerminatesWithin(k): a loop of the code under test running more than k iterations is a
+// violation (the balancer's loops are bounded by members x partitions); intercepted by the
+// executor, a no-op natively (a non-terminating replay ends at the test timeout).
+func verifTerminatesWithin(k int) {}
+
+func VerifC26_joiners4() {
+	verifTerminatesWithin(200)
+	in := &verifGroupIn{nMembers: 4, topics: map[string]int32{}, fixedGens: true}
+	in.order = []string{"t0", "t1"}
+	in.topics["t0"] = int32(2 + 2*verifPick(2))
+	in.topics["t1"] = int32(1 + verifPick(2))
+	in.claims = make([]map[string][]int32, 4)
+	in.gens = make([]int32, 4)
+	for m := 0; m < 4; m++ {
+		in.claims[m] = map[string][]int32{}
+		in.subs = append(in.subs, [][]string{{"t0"}, {"t1"}, {"t0", "t1"}}[verifPick(3)])
+	}
+	for _, t := range in.order {
+		var subs []int
+		for m := 0; m < 4; m++ {
+			if in.subscribes(m, t) {
+				subs = append(subs, m)
+			}
+		}
+		if len(subs) == 0 {
+			continue
+		}
+		k := verifPick(len(subs) + 1)
+		if k == len(subs) {
+			continue // nobody owns this topic yet
+		}
+		for p := int32(0); p < in.topics[t]; p++ {
+			in.claims[subs[k]][t] = append(in.claims[subs[k]][t], p)
+		}
+	}
+	in.verifBalanceOptimal(in.eagerMembers(), "sticky (4 members, incumbents and joiners)")
+	verifReached("c26-joiners4")
 }
